@@ -158,7 +158,7 @@ func (e *e2) judgeCheckpoint(hist []*HistEntry) {
 		var c int
 		fmt.Sscanf(ck, "%d/", &c)
 		k := ck[strings.Index(ck, "/")+1:]
-		if c != spec.Coll || k == ckKey {
+		if (c != spec.Coll && !spec.Bucket) || k == ckKey {
 			continue
 		}
 		if !got[fmt.Sprintf("%s/%d", k, final[ck])] {
@@ -424,4 +424,102 @@ func (e *e2) judgeOpenClose(hist []*HistEntry) {
 		}
 	}
 	e.probe("openclose.checked")
+}
+
+// C11 / C12 (concurrent): view queries race with design-document changes and writes in the same
+// and in another collection. Every row a query of collection A returns must have been emitted by
+// the queried map function for some version that document has had IN COLLECTION A (documents of
+// the two collections carry disjoint values), and a non-stale query that began after every write
+// had finished, on a design document nobody touched, must equal the map of the final documents.
+func (e *e2) judgeViewRace(hist []*HistEntry) {
+	// values every key has had per collection: v -> true
+	had := make([]map[string]map[string]bool, e.p.NColl)
+	for c := range had {
+		had[c] = map[string]map[string]bool{}
+		for k, d := range e.init[c] {
+			had[c][k] = map[string]bool{vOf(d.Body): true}
+		}
+	}
+	ddTouched := map[int]int64{} // collection -> earliest call of a design-document change
+	var lastWrite int64
+	for _, h := range hist {
+		switch h.Op.Kind {
+		case "PutDDoc", "DelDDoc":
+			if h.Task >= 0 {
+				if at, ok := ddTouched[h.Op.Coll]; !ok || h.Call < at {
+					ddTouched[h.Op.Coll] = h.Call
+				}
+			}
+		case "Set":
+			if h.Task >= 0 && h.Op.Body != nil {
+				if had[h.Op.Coll][h.Op.Key] == nil {
+					had[h.Op.Coll][h.Op.Key] = map[string]bool{}
+				}
+				had[h.Op.Coll][h.Op.Key][vOf(*h.Op.Body)] = true // (counted even if it failed or is in flight)
+				if h.Ret > lastWrite {
+					lastWrite = h.Ret
+				}
+			}
+		}
+	}
+	final := make([]map[string]string, e.p.NColl)
+	for c := range final {
+		final[c] = map[string]string{}
+	}
+	for _, h := range hist {
+		if h.Task == -1 && h.Op.Kind == "GetRaw" && h.Res.Err == "" {
+			final[h.Op.Coll][h.Op.Key] = vOf(string(h.Res.Body))
+		}
+	}
+	for _, h := range hist {
+		if h.Op.Kind != "View" || h.Task < 0 || h.Res.Err != "" {
+			continue
+		}
+		c := h.Op.Coll
+		for _, r := range h.Res.Rows {
+			v := canonKey(r.Key)
+			if !had[c][r.ID][v] {
+				tags := []string{"C11", "C12"}
+				other := ""
+				for oc := range had {
+					if oc != c && had[oc][r.ID][v] {
+						other = fmt.Sprintf(" (it is what collection %d holds under that key)", oc)
+					}
+				}
+				e.violate(tags, "view.foreign-row", "%s returned the row %s:%s, but the document %q of collection %d has never had that value%s", h, r.ID, v, r.ID, c, other)
+				return
+			}
+		}
+		if at, touched := ddTouched[c]; (!touched || h.Ret < at) && h.Call > lastWrite && !strings.Contains(*h.Op.Body, `"stale":"ok"`) {
+			// quiescent, non-stale: exactly one row per document of the collection, with its final value
+			got := map[string]string{}
+			for _, r := range h.Res.Rows {
+				if _, dup := got[r.ID]; dup {
+					e.violate([]string{"C12"}, "view.duplicate-row", "%s returned two rows for document %q", h, r.ID)
+					return
+				}
+				got[r.ID] = canonKey(r.Key)
+			}
+			for _, k := range sortedKeys(final[c]) {
+				if v := final[c][k]; got[k] != v {
+					e.violate([]string{"C12"}, "view.quiescent-rows", "%s ran after every write had finished, yet for document %q it returned %q where the document reads %s", h, k, got[k], v)
+					return
+				}
+			}
+			e.probe("viewrace.quiescent-checked")
+		}
+		e.probe("viewrace.query-checked")
+	}
+}
+
+// vOf extracts the canonical form of the property v of a JSON body ("" if none).
+func vOf(body string) string {
+	var m map[string]any
+	if json.Unmarshal([]byte(body), &m) != nil {
+		return ""
+	}
+	if v, ok := m["v"]; ok {
+		return canonKey(v)
+	}
+	return ""
 }
